@@ -6,7 +6,8 @@ import math
 RULE = ("random polylines (degree 1, 1..5 segments, 2-D and 3-D, float data, uniform and non-uniform knots) with random points, points on the "
         "curve, points equidistant from two segments, points beyond the ends; random curves of degree 2..3 and rational arcs (soundness conditions "
         "only); every call under a wall-clock cap.  Non-trivial: at least two segments or degree >= 2; distinct = distinct (curve, point)."
-        " Also: far points whose two nearest candidates differ by about 3e-6 of the distance, single-span curves that clean() could reduce.")
+        " Also: far points whose two nearest candidates differ by about 3e-6 of the distance, single-span curves that clean() could reduce; one Curve object projected on, given other "
+        "weights through the setter, projected on again.")
 EXPLANATION = ("L3: the exact nearest-point oracle for polylines (`geom.nearest`, minimum of the per-segment quadratics over Q, proved optimal) gives "
                "the minimal distance; the returned tuple is checked for non-emptiness, order, range, equal distances (1e-6), minimality, "
                "stationarity of interior non-knot parameters (exact derivative via `rf.evalderiv`), termination and unchanged operands.")
@@ -26,6 +27,24 @@ def run_case(ctx, case):
     Wf = None if W is None else [float(w) for w in W]
     curve = Curve(Uf, Pf, Wf)
     ptf = [float(x) for x in pt]
+    if c.get("pre"):
+        # the same Curve object was projected on while it had other weights / control points, then brought to its present state through
+        # the public setters: the answer depends on the present state only
+        pre = c["pre"]
+        Pq = [np.array([float(x) for x in q]) for q in pre["P"]]
+        Wq = None if pre["W"] is None else [float(w) for w in pre["W"]]
+        curve = Curve(Uf, Pq, Wq)
+        try:
+            impl(lambda: with_timeout(lambda: Projection.point_on_curve(ptf, curve), 30))
+        except Timeout:
+            pass
+        if pre.get("setpoints"):
+            curve.ctrlpoints = Pf
+        curve.weights = Wf
+        if not pre.get("setpoints"):
+            Pf = Pq
+            P = [tuple(q) for q in pre["P"]]
+        rec.count("reused-object", "weights" + ("+points" if pre.get("setpoints") else ""))
     start = curve_state(curve)
     try:
         r = impl(lambda: with_timeout(lambda: Projection.point_on_curve(ptf, curve), 30))
@@ -88,6 +107,31 @@ def run(ctx):
     # corpus: Newton step 0/0 -> NaN -> endless span search (repaired); degree-2 spline with a start parameter where C' = 0
     run_case(ctx, ser(dict(kind="proj", label="corpus", U=[F(0)] * 3 + [F(1)] + [F(2)] * 3,
                            P=[(F(0), F(0)), (F(1), F(1)), (F(2), F(0)), (F(3), F(1))], W=None, pt=[F(1), F(0)])))
+    for i in range(budget(ctx, 14, 150)):
+        # one Curve object projected on, then given other weights (or none) through the setter, then projected on again
+        if i % 2 == 0:
+            nseg = rng.randint(2, 4)
+            U = [F(0), F(0)] + [F(k, nseg) for k in range(1, nseg)] + [F(1), F(1)]
+            P = [(F(rng.randint(-12, 12), 4), F(rng.randint(-12, 12), 4)) for _ in range(nseg + 1)]
+            for a in range(nseg):
+                if P[a] == P[a + 1]:
+                    P[a + 1] = (P[a + 1][0] + 1, P[a + 1][1])
+            pt = [F(rng.randint(-20, 20), 4), F(rng.randint(-20, 20), 4)]
+            pre = dict(P=P, W=[F(rng.choice([1, 2, 5, 9]), rng.choice([1, 2, 7])) for _ in P], setpoints=False)
+            run_case(ctx, ser(dict(kind="proj", label="reused-polyline", U=U, P=P, W=None, pt=pt, pre=pre)))
+        else:
+            U = [F(0)] * 3 + ([F(2, 5)] if rng.random() < 0.5 else []) + [F(1)] * 3
+            n_ = len(U) - 3
+            P = [(F(k), F(rng.randint(-8, 8), 4)) for k in range(n_)]
+            W = [F(rng.choice([1, 2, 3, 5]), rng.choice([1, 2])) for _ in range(n_)]
+            Wq = [F(rng.choice([1, 4, 9]), rng.choice([1, 3])) for _ in range(n_)]
+            # a point of the final curve (exact), so that it must be projected onto itself
+            t0 = F(rng.randint(1, 9), 10)
+            v = ctx["drv"].call("curve.def", *curve_args(U, P, W), [t0])
+            if v[0] != "ok":
+                continue
+            pt = [frac(x) for x in v[1][0]]
+            run_case(ctx, ser(dict(kind="proj", label="oncurve-rational", U=U, P=P, W=W, pt=pt, pre=dict(P=P, W=Wq, setpoints=False))))
     for i in range(budget(ctx, 70, 900)):
         dim = rng.choice([2, 2, 3])
         nseg = rng.randint(1, 5)
